@@ -48,6 +48,26 @@ def _any_last_test(b, s, facts):
     return False
 
 
+def _is_tick(e, i):
+    """`timeout(every, call.as_mut())` elapsed: the timer of a heartbeat fired while the request future - pinned elsewhere and only
+    borrowed by the timeout - is still in flight.  That Err is not a failure of the request (nothing was dropped, the same future is
+    polled again); the Err of a timeout that owns the request future is (dropping it abandons the request)."""
+    for _h in range(8):
+        if e[0] == "field" and e[2] == "0":
+            e = e[1]
+        elif e[0] == "variant" and e[2] == "Ready":
+            e = e[1]
+        elif e[0] == "call" and e[1].rsplit("::", 1)[-1] == "poll" and e[2]:
+            e = e[2][0]
+        else:
+            break
+    if e[0] != "call" or e[1].rsplit("::", 1)[-1] not in ("timeout", "timeout_at") or len(e[2]) < 2:
+        return False
+    fut = e[2][-1]
+    borrowed = (fut[0] == "call" and fut[1].rsplit("::", 1)[-1] in ("as_mut", "new", "new_unchecked") and "Pin" in fut[1]) or fut[0] == "ref"
+    return borrowed and any(y[0] == "call" and len(y) > 3 and y[3] == i for y in walk(fut))
+
+
 def run(facts, R):
     # ---------------- one-terminal ----------------------------------------------------------------------
     pb = facts.body(VS + "produce")
@@ -497,6 +517,8 @@ def run(facts, R):
             for x in sorted(b.live_blocks()):
                 for f in facts_at(b, bs, facts, x):
                     if str(f["val"]) in ("Err", "Break") and any(y[0] == "call" and len(y) > 3 and y[3] == i for y in walk(f["expr"])):
+                        if _is_tick(f["expr"], i):
+                            continue
                         bad.append((x, 0))
             w = must_cross(b, bad, pts, [], after_start=False) if bad else None
             R.check(bool(bad) and w is None, "one-next-per-chunk", b.path, "a failed `next` is never re-sent",
